@@ -1,6 +1,12 @@
 import TflModel.Model.Core
 import TflModel.Model.Linear
 import TflModel.Model.Ensembles
+import TflModel.Model.PwlEval
+import TflModel.Model.Categorical
+import TflModel.Model.LatticeEval
+import TflModel.Model.Lattice
+import TflModel.Model.Kfl
+import TflModel.Model.Verify
 /-!
 # Premade models (C03) — builder decision logic, abstract composite, histories (Mathlib-free)
 
@@ -22,6 +28,14 @@ Anchors: `premade.py` (the three constructors), `premade_lib.py:145-173` (`_outp
   they are composed according to the `LayerGraph`.
 * `runHistory` is a training history: a list of ARBITRARY updates of all weights, each followed
   by the per-variable constraint.
+* `realise g P w` is the CONCRETE composite: the weights `w` of every variable of the model (one
+  `CalW` per calibrator unit, one `BlkW` per lattice / KFL unit, the kernels of the `Linear` layers, the
+  output calibrator) are turned into `Fns` with the layer evaluation models of C02 / C05 / C07 / C20;
+  `forward g (realise g P w)` is the function the driver evaluates (`pm.forward`) and the check
+  compares with the real premade model, AND the function the `System` of `Props/C03System.lean`
+  speaks about.
+* `layersAccept g P` collects what the layer constructors (`verify_hyperparameters` of every layer
+  the builders create) check beyond `verify_config`; `trapClass` is the restriction H_trap of C01.
 -/
 namespace Tfl.Premade
 open Tfl
@@ -547,5 +561,230 @@ def constrain {V : Type} {S : V → Type} (c : ∀ v, S v → S v) (w : ∀ v, S
 def runHistory {V : Type} {S : V → Type} (c : ∀ v, S v → S v) (w0 : ∀ v, S v)
     (h : List ((∀ v, S v) → (∀ v, S v))) : ∀ v, S v :=
   h.foldl (fun w u => constrain c (u w)) w0
+
+/-! ## the concrete composite: weights as data, realised with the layer evaluation models -/
+
+/-- values of the configuration that no builder DECISION depends on -/
+structure Params where
+  /-- `pwl_calibration_input_keypoints` by feature index (`[]` for a categorical feature) -/
+  kps : List (List Rat) := []
+  deriving Repr, Inhabited
+
+def Params.kpsOf (P : Params) (f : Nat) : List Rat := P.kps.getD f []
+
+/-- the trainable state of ONE calibrator unit: `kernel` = one column of `pwl_calibration_kernel`
+(bias, then the heights) resp. of `categorical_calibration_kernel`; `ws` = the unit's row of
+`softmax(interpolation_logits)` (learned interior keypoints only); `missingOut` = its entry of
+`missing_output`. -/
+structure CalW where
+  kernel : List Rat := []
+  ws : List Rat := []
+  missingOut : Rat := 0
+  deriving Repr, Inhabited
+
+/-- the trainable state of ONE lattice unit: all-vertices kernel column (as a table) or the
+Kronecker-factored kernel / scale and the bias (trained only when the layer has no output bound). -/
+structure BlkW where
+  table : Table := []
+  kfl : Kfl.State := ⟨[], []⟩
+  bias : Rat := 0
+  deriving Inhabited
+
+/-- kernel column and bias of a `Linear` layer -/
+structure LinW where
+  w : List Rat := []
+  b : Rat := 0
+  deriving Repr, Inhabited
+
+/-- the variables of a model: calibrator unit `u` of feature `f`; lattice unit `j` (position in
+`blocks`); the `Linear` layer of a calibrated linear model; the linear-combination layer; the output
+calibrator. -/
+inductive Var where
+  | cal (f u : Nat)
+  | blk (j : Nat)
+  | lin
+  | comb
+  | out
+  deriving DecidableEq, Repr
+
+def Var.S : Var → Type
+  | .cal _ _ => CalW
+  | .blk _ => BlkW
+  | .lin => LinW
+  | .comb => LinW
+  | .out => CalW
+
+/-- a value for every variable -/
+abbrev Assign := ∀ v : Var, v.S
+
+/-- the function a PWL calibrator unit realises (`PWLCalibration.call` without `is_missing` tensor) -/
+def pwlFn (cfgE : PwlEval.Cfg) (kernel ws : List Rat) (mo x : Rat) : Rat :=
+  match PwlEval.call cfgE kernel ws mo x none with
+  | .ok v => v
+  | .error _ => 0
+
+/-- the function a categorical calibrator unit with kernel `k` realises; categories and the default
+value are integers given as rationals -/
+def catFn (k : List Rat) (dflt : Option Rat) (x : Rat) : Rat := Categorical.call k (dflt.map Rat.num) x.num
+
+/-- evaluation configuration of the `PWLCalibration` layer the builders create for calibrator `c` -/
+def pwlCfg (c : Calibrator) (kps : List Rat) : PwlEval.Cfg :=
+  ⟨kps, c.learned, false, c.missing.isSome, c.missing⟩
+
+/-- `np.linspace(0, 1, n)`: the input keypoints of the output calibrator -/
+def linspace01 (n : Nat) : List Rat := (List.range n).map (fun (i : Nat) => (i : Rat) / ((n : Rat) - 1))
+
+/-- evaluation configuration of the output calibrator -/
+def outCfg (oc : OutCal) : PwlEval.Cfg := ⟨linspace01 oc.numKeypoints, false, false, false, none⟩
+
+def calFn (P : Params) (c : Calibrator) (s : CalW) (x : Rat) : Rat :=
+  if c.categorical then catFn s.kernel c.missing x
+  else pwlFn (pwlCfg c (P.kpsOf c.feature)) s.kernel s.ws s.missingOut x
+
+/-- the calibrator of feature `f` (the builders create one per used feature) -/
+def calOf (g : LayerGraph) (f : Nat) : Calibrator :=
+  (g.calibrators.find? (fun c => c.feature == f)).getD default
+
+/-- the all-vertices kernel column in the layout of the evaluation model -/
+def latKernel (sizes : List Nat) (t : Table) : List Rat := (allIdx sizes).map t.get
+
+/-- the bias of a Kronecker-factored unit: fixed by the bounds when there is one, trained otherwise -/
+def kflBias (b : Block) (s : BlkW) : Rat :=
+  if b.outMin.isSome || b.outMax.isSome then Kfl.fixedBias b.outMin b.outMax else s.bias
+
+/-- the value of an evaluation that cannot fail on the inputs the property speaks about -/
+def okOr0 (r : Except Err Rat) : Rat :=
+  match r with
+  | .ok v => v
+  | .error _ => 0
+
+/-- the function a lattice / KFL unit realises (`clip_inputs = False`, as all builders set it) -/
+def blkFn (b : Block) (s : BlkW) (z : List Rat) : Rat :=
+  match b.kind with
+  | .lattice =>
+    if b.simplex then okOr0 (LatticeEval.evalSimplex false b.sizes (latKernel b.sizes s.table) z)
+    else LatticeEval.hypercubeValue .list false b.sizes (latKernel b.sizes s.table) z
+  | .kfl => Kfl.eval (b.sizes.headD 0) false s.kfl.K s.kfl.scale (kflBias b s) z
+  | .linear => 0
+
+/-- **the concrete composite**: the layer functions of a weight assignment -/
+def realise (g : LayerGraph) (P : Params) (w : Assign) : Fns where
+  cal := fun f u x => calFn P (calOf g f) (w (.cal f u)) x
+  lat := fun j z => match g.blocks[j]? with
+    | some b => blkFn b (w (.blk j)) z
+    | none => 0
+  linW := (w .lin).w
+  linB := (w .lin).b
+  combW := (w .comb).w
+  combB := (w .comb).b
+  out := fun y => match g.outCal with
+    | some oc => pwlFn (outCfg oc) (w .out).kernel (w .out).ws (w .out).missingOut y
+    | none => y
+
+/-! ### what the layer constructors check (beyond `verify_config`) -/
+
+/-- `(main, conditional, direction)` as the projection model reads it -/
+def trustOf (t : Nat × Nat × Int) : Lat.Trust := ⟨t.1, t.2.1, t.2.2 == 1⟩
+
+/-- the configuration of `LatticeConstraints` of an all-vertices block -/
+def latCfgOf (b : Block) : Lat.Cfg :=
+  { sizes := b.sizes, mono := b.monos.map (fun m => m == 1), edgeworth := b.edgeworth.map trustOf,
+    trapezoid := b.trapezoid.map trustOf, lo := b.outMin, hi := b.outMax }
+
+def strictIncrB : List Rat → Bool
+  | a :: b :: t => decide (a < b) && strictIncrB (b :: t)
+  | _ => true
+
+/-- `output_min ≤ output_max` when both are given (PWL / categorical calibrators, KFL) -/
+def boundsLeB (lo hi : Option Rat) : Bool :=
+  match lo, hi with
+  | some l, some h => decide (l ≤ h)
+  | _, _ => true
+
+/-- `output_min < output_max` when both are given (`Lattice`) -/
+def boundsLtB (lo hi : Option Rat) : Bool :=
+  match lo, hi with
+  | some l, some h => decide (l < h)
+  | _, _ => true
+
+def pairwiseB {α} (r : α → α → Bool) : List α → Bool
+  | [] => true
+  | a :: l => l.all (r a) && pairwiseB r l
+
+/-- two trusts do not interfere: neither's conditional axis is the other's main axis and they are
+not on the same pair of axes -/
+def compatB (a b : Lat.Trust) : Bool :=
+  b.cond != a.main && b.main != a.cond && !(a.main == b.main && a.cond == b.cond)
+
+/-- `PWLCalibration.__init__` / `verify_hyperparameters` for the calibrator of feature `c.feature` -/
+def pwlAccept (P : Params) (c : Calibrator) : Bool :=
+  (c.mono == 0 || c.mono == 1 || c.mono == -1) && (c.convexity == 0 || c.convexity == 1 || c.convexity == -1) &&
+  c.pairs.isEmpty && decide (2 ≤ (P.kpsOf c.feature).length) && strictIncrB (P.kpsOf c.feature) &&
+  boundsLeB c.outMin c.outMax
+
+/-- `CategoricalCalibration.__init__`: at least one bucket, an acyclic set of pairs of bucket indices
+(the round-based cycle check `Tfl.Verify.kahnAcyclic`), an integer default value -/
+def catAccept (c : Calibrator) : Bool :=
+  c.mono == 0 && decide (0 < c.numBuckets) &&
+  c.pairs.all (fun p => decide (p.1 < c.numBuckets) && decide (p.2 < c.numBuckets)) &&
+  Verify.kahnAcyclic c.pairs.length c.pairs &&
+  (match c.missing with | some m => m.den == 1 | none => true) && boundsLeB c.outMin c.outMax
+
+/-- `Lattice.__init__` / `lattice_lib.verify_hyperparameters`: sizes ≥ 2; every trust names two
+different axes of the lattice and a monotone main axis; no axis is a main and a conditional axis;
+two trusts on the same pair of axes have the same direction; `output_min < output_max`.
+Beyond that: no Edgeworth pair is listed twice (a duplicated identical trust is accepted by the
+real check; the C01 theorems do not cover it). -/
+def latticeAccept (b : Block) : Bool :=
+  let c := latCfgOf b
+  let n := b.sizes.length
+  !b.sizes.isEmpty && b.sizes.all (fun s => decide (2 ≤ s)) &&
+  (c.edgeworth ++ c.trapezoid).all (fun t =>
+    decide (t.main < n) && decide (t.cond < n) && t.main != t.cond && c.mono.getD t.main false) &&
+  pairwiseB (fun x y => compatB x y && compatB y x) c.edgeworth &&
+  c.trapezoid.all (fun x => c.trapezoid.all (fun y => y.cond != x.main)) &&
+  c.trapezoid.all (fun t => c.edgeworth.all (fun e => e == t || compatB t e)) &&
+  boundsLtB b.outMin b.outMax
+
+/-- `KroneckerFactoredLattice.__init__`: one common lattice size ≥ 2, `output_min < output_max` -/
+def kflAccept (b : Block) : Bool :=
+  !b.sizes.isEmpty && decide (2 ≤ b.sizes.headD 0) && b.sizes.all (fun s => s == b.sizes.headD 0) &&
+  boundsLtB b.outMin b.outMax
+
+/-- `Linear.__init__`: monotonic dominance only between increasing inputs of the layer, no circular
+dominances -/
+def linearAccept (b : Block) : Bool :=
+  b.dominances.all (fun p => b.monos.getD p.1 0 == 1 && b.monos.getD p.2 0 == 1 &&
+    decide (p.1 < b.inputs.length) && decide (p.2 < b.inputs.length)) &&
+  Verify.kahnAcyclic b.dominances.length b.dominances
+
+def blockAccept (b : Block) : Bool :=
+  match b.kind with
+  | .lattice => latticeAccept b
+  | .kfl => kflAccept b
+  | .linear => linearAccept b
+
+/-- **every layer the builders create for `g` is accepted by its constructor** -/
+def layersAccept (g : LayerGraph) (P : Params) : Bool :=
+  g.calibrators.all (fun c => if c.categorical then catAccept c else pwlAccept P c) &&
+  g.blocks.all blockAccept &&
+  (match g.outCal with
+   | some oc => decide (2 ≤ oc.numKeypoints) && boundsLeB oc.outMin oc.outMax
+   | none => true)
+
+/-- trapezoid conditional axes are pairwise distinct (first half of H_trap; only demanded when
+Edgeworth trusts are present) -/
+def trapDistinct (b : Block) : Bool :=
+  b.edgeworth.isEmpty || pairwiseB (fun x y : Lat.Trust => x.cond != y.cond) (latCfgOf b).trapezoid
+
+/-- no trapezoid conditional axis is monotone (second half of H_trap; only demanded when Edgeworth
+trusts are present and the lattice has a third axis). Its failure is the class of finding F-C01-a. -/
+def trapCondFree (b : Block) : Bool :=
+  b.edgeworth.isEmpty || b.sizes.length == 2 ||
+    (latCfgOf b).trapezoid.all (fun t => !(latCfgOf b).mono.getD t.cond false)
+
+/-- **H_trap (C01)** for every all-vertices block of the graph -/
+def trapClass (g : LayerGraph) : Bool :=
+  g.blocks.all (fun b => b.kind != .lattice || (trapDistinct b && trapCondFree b))
 
 end Tfl.Premade
